@@ -1,0 +1,17 @@
+//go:build verif
+
+package multiplexing
+
+// This file is only compiled with the "verif" build tag. It lets the external
+// verification harness position a multiplexer close to the end of its stream
+// identifier space, which cannot be reached through the public API in
+// reasonable time. No call site is changed.
+
+// VerifSetNextOutboundStreamIdentifier sets the next outbound stream
+// identifier. The value must have the parity of the multiplexer's outbound
+// identifiers.
+func (m *Multiplexer) VerifSetNextOutboundStreamIdentifier(identifier uint64) {
+	m.streamLock.Lock()
+	m.nextOutboundStreamIdentifier = identifier
+	m.streamLock.Unlock()
+}
